@@ -90,6 +90,30 @@ pub fn from_str_lastsym<S: Src, const P: usize, const ZONED: bool>(s: &mut S) ->
     Ok(())
 }
 
+pub const DOT_TEXTS: &[&[u8]] = &[b"a..", b"..", b".a", b"a..b", b"a.b..", b".", b"a.", b"", b"a.b.", b"...", b"a.b", b"ab.."];
+
+/// `raw_name_from_str` on concrete texts that exercise the dot handling
+/// (empty labels in every position), with and without a zone. Concrete:
+/// the solver executes the real converter; the oracle is evaluated alongside.
+pub fn from_str_dots<S: Src, const T: usize, const ZONED: bool>(s: &mut S) -> Verdict {
+    let text = DOT_TEXTS[T];
+    let zone = if ZONED { Some(ZONE) } else { None };
+    let r = r#gen::raw_name_from_str(text, zone);
+    let class = spec::text_class(text, if ZONED { ZONE.len() } else { 0 });
+    match r {
+        Ok(w) => {
+            vassert!(class != 2, "raw_name_from_str rejects an empty interior label, an over-long label or total");
+            vassert!(spec::is_plain_name(&w), "raw_name_from_str: the result is a well-formed pointer-free wire name (labels <= 63, total <= 255)");
+            vassert!(spec::text_labels_match(text, zone, &w), "raw_name_from_str: the labels are exactly the dot-separated labels of the text (+ zone unless it ends in a dot)");
+        }
+        Err(_) => {
+            vassert!(class != 1, "raw_name_from_str accepts every letter-digit-hyphen-underscore name within the limits");
+        }
+    }
+    vcover!(s, true, "end");
+    Ok(())
+}
+
 /// Boundary lengths: one label of L bytes (L = 61..64) followed by PAD
 /// labels so that the total wire length is TOTAL; one symbolic byte in the
 /// first label.
